@@ -1,4 +1,4 @@
-"""C19 -- pattern matching and restructuring (clauses R19.1-R19.4)."""
+"""C19 -- pattern matching and restructuring (clauses R19.1-R19.5)."""
 from __future__ import annotations
 
 import ast
@@ -14,7 +14,8 @@ EXPLANATION = (
     "node, and the unbound path stores the node before accepting.  R19.3: the matcher enumerates fields with "
     "ast.iter_fields filtering only expr_context, and has a rejecting exit for class, child count, list length, "
     "scalar value and recursive mismatch.  R19.4: in the statement-replacement loop an overlapping match can reach "
-    "add_change only through the expression-mode edge, and last_end is updated before every add_change.  "
+    "add_change only through the expression-mode edge, and last_end is updated before every add_change.  R19.5: every accepting path of the default wildcard (or the matcher "
+    "before it) crosses an isinstance(node, ast.*) test, so a wildcard is never bound to an empty optional field.  "
     "Completeness of reported matches and meaning-preserving substitution are not decided."
 )
 ASSUMPTIONS = ["node.region is exact (rests on C08)"]
@@ -115,6 +116,11 @@ def matcher_rule(ctx, res, rule: str) -> None:
 
 
 def check(ctx, res) -> None:
+    _check_main(ctx, res)
+    _wildcard_node_rule(ctx, res)
+
+
+def _check_main(ctx, res) -> None:
     idx = ctx.idx
     gm = idx.need_func("rope.refactor.similarfinder.RawSimilarFinder.get_matches")
     cfg = CFG(gm.node)
@@ -241,3 +247,82 @@ def check(ctx, res) -> None:
                 "an overlapping statement match is skipped before add_change and last_end is advanced for every replaced match" if ok and ok2 else
                 ("an overlapping statement match (start < last_end) can still reach add_change" if not ok else
                  "last_end is not advanced to the end of every replaced match") + ": overlapping replacements corrupt the rewritten text")
+
+
+def _wildcard_node_rule(ctx, res) -> None:
+    """R19.5: a wildcard is bound to CODE.  The matcher hands the wildcard whatever sits in the corresponding field of
+    the candidate, which for optional fields is None; somewhere on the chain matcher -> callback -> wildcard every
+    accepting path must have tested that the candidate is a syntax node (isinstance against an ast class)."""
+    idx = ctx.idx
+    wc = idx.need_class("rope.refactor.wildcards.DefaultWildcard")
+    m = wc.methods.get("matches")
+    if m is None:
+        raise AnalysisError("anchor=DefaultWildcard.matches missing")
+
+    def node_vars(fn) -> Set[str]:
+        """names (normalised expressions) that denote the candidate node inside fn"""
+        out = set()
+        for x in ast.walk(fn):
+            if isinstance(x, ast.Attribute) and x.attr == "node" and isinstance(x.value, ast.Name):
+                out.add(norm(x))
+        for x in walk_local(fn):
+            if isinstance(x, ast.Assign) and isinstance(x.value, ast.Attribute) and x.value.attr == "node" and isinstance(x.targets[0], ast.Name):
+                out.add(norm(ast.Name(id=x.targets[0].id, ctx=ast.Load())))
+        return out
+
+    def is_node_test(t: ast.AST, nv: Set[str]) -> bool:
+        return isinstance(t, ast.Call) and call_name(t) == "isinstance" and len(t.args) == 2 and norm(t.args[0]) in nv and \
+            any((dotted(e) or "").startswith("ast.") for e in (t.args[1].elts if isinstance(t.args[1], ast.Tuple) else [t.args[1]]))
+
+    def accepting_paths_tested(fn) -> Tuple[bool, Optional[ast.AST]]:
+        """every CFG path from the entry to an accepting return crosses the true edge of a node test"""
+        cfg = CFG(fn.node)
+        nv = node_vars(fn.node)
+        passed = [(nd.id, dst, lab) for nd in cfg.nodes if nd.kind == "test" and nd.ast is not None and is_node_test(nd.ast, nv)
+                  for dst, lab in cfg.succ[nd.id] if lab == "true"]
+        free = cfg.reachable(cfg.entry.id, avoid_edges=passed)
+        for nd in cfg.nodes:
+            if nd.kind != "stmt" or not isinstance(nd.ast, ast.Return) or nd.ast.value is None:
+                continue
+            v = nd.ast.value
+            if isinstance(v, ast.Constant) and not v.value:
+                continue
+            conj = list(v.values) if isinstance(v, ast.BoolOp) and isinstance(v.op, ast.And) else [v]
+            if any(is_node_test(t, nv) for t in conj):
+                continue
+            if nd.id in free:
+                return False, nd.ast
+        return True, None
+
+    # which helper predicates must hold for matches() to accept
+    cfg = CFG(m.node)
+    required = set()
+    for nd in cfg.nodes:
+        if nd.kind == "stmt" and isinstance(nd.ast, ast.Return) and isinstance(nd.ast.value, ast.Constant) and nd.ast.value.value is True:
+            for t, pol in cfg.guards(nd.id):
+                if pol and isinstance(t, ast.Call) and is_self_attr(t.func) and t.func.attr in wc.methods:
+                    required.add(t.func.attr)
+    ok, bad_at = accepting_paths_tested(m)
+    via = None
+    if not ok:
+        for h in sorted(required):
+            ok_h, bad_h = accepting_paths_tested(wc.methods[h])
+            if ok_h:
+                ok, via = True, h
+                break
+            bad_at = bad_h or bad_at
+    if not ok:
+        # the matcher itself may do it
+        mw = idx.need_func("rope.refactor.similarfinder._ASTMatcher._match_wildcard")
+        p2 = param_names(mw.node)[2] if len(param_names(mw.node)) > 2 else None
+        mcfg = CFG(mw.node)
+        for nd in mcfg.nodes:
+            if nd.kind == "stmt" and isinstance(nd.ast, ast.Assign) and isinstance(nd.ast.targets[0], ast.Subscript):
+                if any(pol and isinstance(t, ast.Call) and call_name(t) == "isinstance" and t.args and isinstance(t.args[0], ast.Name) and t.args[0].id == p2
+                       for t, pol in mcfg.guards(nd.id)):
+                    ok, via = True, "_match_wildcard"
+    res.add("R19.5", "DefaultWildcard|binds-nodes-only", ok, m.where if ok else f"{wc.unit.rel}:{getattr(bad_at, 'lineno', m.node.lineno)}",
+            f"every accepting path tests that the candidate is a syntax node (in {via or 'matches'})" if ok else
+            "the default wildcard accepts a candidate without testing that it is a syntax node (a path returns True with no isinstance(node, ast.*) "
+            "test on it, here or in the matcher): for an optional field left empty in the code (bare `return`, `a[:]`, `assert c`) the wildcard is bound to "
+            "None and a non-instance is reported as a match", function=m.qualname, required=sorted(required))
